@@ -479,6 +479,9 @@ func runGo2Lean(args []string) {
 }
 
 func shortPath(p string) string {
+	if d := os.Getenv("VERIF_MUTANT_DIR"); d != "" && strings.HasPrefix(p, strings.TrimRight(d, "/")+"/") {
+		return p[len(strings.TrimRight(d, "/"))+1:]
+	}
 	if i := strings.Index(p, "/repo/"); i >= 0 {
 		return p[i+6:]
 	}
